@@ -647,13 +647,93 @@ def recv_toks_done(x):
     return False
 
 
+# ----------------------------------------------------------------------------- reference impls (C18 b)
+
+def extract_ref_impls():
+    """Every `impl … Trait<&'x [mut] S> for &'y [mut] D` in src/**: conversions that turn one
+    reference into another (all of them are `unsafe { transmute }` bodies).  `tied` says whether
+    the produced reference carries the SAME named lifetime as the consumed one; an elided or
+    different lifetime in the impl header unties them (the result could outlive the source)."""
+    rows = []
+    for root, _, fs in sorted(os.walk(os.path.join(REPO, "src"))):
+        for f in sorted(fs):
+            if not f.endswith(".rs"):
+                continue
+            rel = os.path.relpath(os.path.join(root, f), REPO)
+            tt = [t for (_, t) in tokenize(read(rel))]
+            i = 0
+            while i < len(tt):
+                if tt[i] != "impl":
+                    i += 1
+                    continue
+                j = i + 1
+                hdr = []
+                while j < len(tt) and tt[j] not in ("{", ";"):
+                    hdr.append(tt[j])
+                    j += 1
+                i = j
+                if "for" not in hdr:
+                    continue
+                k = hdr.index("for")
+                dst = hdr[k + 1:]
+                if "where" in dst:
+                    dst = dst[:dst.index("where")]
+                if not dst or dst[0] != "&":
+                    continue
+                # impl generics
+                g = 0
+                generics = []
+                if hdr and hdr[0] == "<":
+                    d = 0
+                    while g < len(hdr):
+                        if hdr[g] == "<":
+                            d += 1
+                        elif hdr[g] == ">":
+                            d -= 1
+                        elif hdr[g] == ">>":
+                            d -= 2
+                        g += 1
+                        if d <= 0:
+                            break
+                    generics = hdr[1:g - 1]
+                trait = hdr[g:k]
+                tname = trait[0] if trait else "?"
+                arg = trait[2:-1] if len(trait) > 3 and trait[1] == "<" else []
+                if trait and trait[-1] == ">>":
+                    arg = trait[2:-1] + [">"]
+
+                def ref_parts(ts):
+                    lt, mut, rest = None, False, list(ts[1:])
+                    if rest and rest[0].startswith("'"):
+                        lt = rest.pop(0)
+                    if rest and rest[0] == "mut":
+                        mut = True
+                        rest.pop(0)
+                    return lt, mut, rest
+                dlt, dmut, dty = ref_parts(dst)
+                if arg and arg[0] == "&":
+                    slt, smut, sty = ref_parts(arg)
+                else:
+                    slt, smut, sty = None, False, arg
+                tied = dlt is not None and dlt == slt and dlt not in ("'_", "'static")
+                tparams = [generics[x] for x in range(len(generics)) if not generics[x].startswith("'") and (x == 0 or generics[x - 1] == ",") and generics[x][0].isupper()]
+                rows.append({"file": rel, "text": "impl " + " ".join(hdr), "trait": tname, "src": " ".join(sty), "dst": " ".join(dty),
+                             "src_ref": bool(arg and arg[0] == "&"), "mut": dmut, "tied": tied, "type_params": tparams})
+    return rows
+
+
+
 def main():
     os.makedirs(GEN, exist_ok=True)
     try:
         files = {"Consts.lean": extract_consts(), "Tokens.lean": extract_tokens(), "Fields.lean": extract_fields()}
         files["FieldsAst.lean"] = fields_ast(_FIELD_ROWS)
         sig_text, sig_rows = extract_sigs()
+        ref_rows = extract_ref_impls()
+        sig_text = sig_text.replace("\nend Gecs.Gen\n", "\n/-- reference-to-reference conversion impls of src/** (header, is the produced reference tied to the\nconsumed one by the same named lifetime?) -/\ndef refImpls : List (String × Bool) := [\n"
+                                    + ",\n".join(f"  ({lean_str(r['text'])}, {'true' if r['tied'] else 'false'})" for r in ref_rows) + "\n]\n\nend Gecs.Gen\n")
         files["Sigs.lean"] = sig_text
+        json.dump(ref_rows, open(os.path.join(GEN, "refimpls.json"), "w"), indent=1)
         json.dump([{"item": n, "recv": r, "borrows": b} for (n, r, b) in sig_rows], open(os.path.join(GEN, "sigs.json"), "w"), indent=1)
     except (ExtractError, IndexError, ValueError, KeyError) as e:
         print(f"EXTRACT-ERROR: {e!r}")
